@@ -734,7 +734,7 @@ theorem square_large_ok (a : Limbs) (ha : InBounds a) :
 theorem lt_iff32 (x y : U32) : x < y ↔ x.toNat < y.toNat := BitVec.lt_def
 
 /-- `if tmp[i+3] < 0x10000000 …` of the even half: exact effect, no wrap-around, bound -/
-theorem evA_spec (x t3 : U32) (c : Nat) (hx : x.toNat < 536870912) (ht : t3.toNat ≤ c) (hlo : 1073741823 ≤ c)
+theorem evA_spec (x t3 : U32) (c : Nat) (_hx : x.toNat < 536870912) (ht : t3.toNat ≤ c) (hlo : 1073741823 ≤ c)
     (hhi : c ≤ 3221225472) :
     (evA x 0xffffffff t3).1.toNat + (x.toNat % 262144) * 1024 = t3.toNat + 268435456 * (evA x 0xffffffff t3).2.toNat ∧
     (evA x 0xffffffff t3).2.toNat ≤ 1 ∧ (evA x 0xffffffff t3).1.toNat ≤ c := by
@@ -752,7 +752,7 @@ theorem evA_spec (x t3 : U32) (c : Nat) (hx : x.toNat < 536870912) (ht : t3.toNa
     omega
 
 /-- `if tmp[i+4] < 0x20000000 …` of the even half (borrow chain through tmp[i+5], tmp[i+6]) -/
-theorem evB_spec (x set4 t4 t5 t6 : U32) (c4 c5 c6 : Nat) (hx : x.toNat < 536870912) (hs : set4.toNat ≤ 1)
+theorem evB_spec (x set4 t4 t5 t6 : U32) (c4 c5 c6 : Nat) (_hx : x.toNat < 536870912) (hs : set4.toNat ≤ 1)
     (h4 : t4.toNat ≤ c4) (h5 : t5.toNat ≤ c5) (h6 : t6.toNat ≤ c6)
     (l4 : 1073741823 ≤ c4) (l5 : 1073741823 ≤ c5) (l6 : 1073741823 ≤ c6)
     (u4 : c4 ≤ 3221225472) (u5 : c5 ≤ 3221225472) (u6 : c6 ≤ 3221225472) :
@@ -985,7 +985,7 @@ theorem rdEven_spec (w : Win) (c1 c2 c3 c4 c5 c6 c7 c8 c9 : Nat)
 
 
 /-- `if tmp[i+4] < 0x20000000 …` of the odd half -/
-theorem odA_spec (x t3 : U32) (c : Nat) (hx : x.toNat < 268435456) (ht : t3.toNat ≤ c) (hlo : 1073741823 ≤ c)
+theorem odA_spec (x t3 : U32) (c : Nat) (_hx : x.toNat < 268435456) (ht : t3.toNat ≤ c) (hlo : 1073741823 ≤ c)
     (hhi : c ≤ 3221225472) :
     (odA x 0xffffffff t3).1.toNat + (x.toNat % 262144) * 2048 = t3.toNat + 536870912 * (odA x 0xffffffff t3).2.toNat ∧
     (odA x 0xffffffff t3).2.toNat ≤ 1 ∧ (odA x 0xffffffff t3).1.toNat ≤ c := by
@@ -1003,7 +1003,7 @@ theorem odA_spec (x t3 : U32) (c : Nat) (hx : x.toNat < 268435456) (ht : t3.toNa
     omega
 
 /-- `if tmp[i+5] < 0x10000000 …` of the odd half (borrow chain through tmp[i+6], tmp[i+7]) -/
-theorem odB_spec (x set5 t4 t5 t6 : U32) (c4 c5 c6 : Nat) (hx : x.toNat < 268435456) (hs : set5.toNat ≤ 1)
+theorem odB_spec (x set5 t4 t5 t6 : U32) (c4 c5 c6 : Nat) (_hx : x.toNat < 268435456) (hs : set5.toNat ≤ 1)
     (h4 : t4.toNat ≤ c4) (h5 : t5.toNat ≤ c5) (h6 : t6.toNat ≤ c6)
     (l4 : 1073741823 ≤ c4) (l5 : 1073741823 ≤ c5) (l6 : 1073741823 ≤ c6)
     (u4 : c4 ≤ 3221225472) (u5 : c5 ≤ 3221225472) (u6 : c6 ≤ 3221225472) :
@@ -1045,7 +1045,7 @@ theorem odB_spec (x set5 t4 t5 t6 : U32) (c4 c5 c6 : Nat) (hx : x.toNat < 268435
     omega
 
 /-- `if tmp[i+8] < 0x20000000 …` of the odd half -/
-theorem odC_spec (x set8 t7 : U32) (c : Nat) (hx : x.toNat < 268435456) (hs : set8.toNat ≤ 1) (ht : t7.toNat ≤ c)
+theorem odC_spec (x set8 t7 : U32) (c : Nat) (_hx : x.toNat < 268435456) (hs : set8.toNat ≤ 1) (ht : t7.toNat ≤ c)
     (hlo : 1073741823 ≤ c) (hhi : c ≤ 3221225472) :
     (odC x 0xffffffff set8 t7).1.toNat + set8.toNat + (x.toNat % 16) * 33554432
       = t7.toNat + 536870912 * (odC x 0xffffffff set8 t7).2.toNat ∧
@@ -1356,4 +1356,464 @@ theorem repack_lit (b0 b1 b2 b3 b4 b5 b6 b7 b8 b9 b10 b11 b12 b13 b14 b15 b16 : 
   have := b16.isLt
   rw [valTmp_lit, valueLarge_lit]
   omega
+
+-- (e) sm2P256ReduceDegree: the nine elimination steps on the 18-word temporary ------------------------------------
+
+set_option maxHeartbeats 2000000 in
+theorem elim_step0 (t0 t1 t2 t3 t4 t5 t6 t7 t8 t9 t10 t11 t12 t13 t14 t15 t16 t17 : U32)
+    (h1 : t1.toNat ≤ 1073741823) (h2 : t2.toNat ≤ 1073741823) (h3 : t3.toNat ≤ 1073741823) (h4 : t4.toNat ≤ 1073741823) (h5 : t5.toNat ≤ 1073741823) (h6 : t6.toNat ≤ 1073741823) (h7 : t7.toNat ≤ 1073741823) (h8 : t8.toNat ≤ 1073741823) (h9 : t9.toNat ≤ 1073741823) :
+    ∃ s0 s1 s2 s3 s4 s5 s6 s7 s8 s9 : U32, elimEven true #v[t0, t1, t2, t3, t4, t5, t6, t7, t8, t9, t10, t11, t12, t13, t14, t15, t16, t17] 0 = #v[s0, s1, s2, s3, s4, s5, s6, s7, s8, s9, t10, t11, t12, t13, t14, t15, t16, t17] ∧
+      valTmp #v[s0, s1, s2, s3, s4, s5, s6, s7, s8, s9, t10, t11, t12, t13, t14, t15, t16, t17] = valTmp #v[t0, t1, t2, t3, t4, t5, t6, t7, t8, t9, t10, t11, t12, t13, t14, t15, t16, t17] + (t0.toNat % 536870912) * 2 ^ 0 * P ∧
+      s0.toNat = 0 ∧ s1.toNat ≤ 1073741830 ∧ s2.toNat ≤ 1610612607 ∧ s3.toNat ≤ 1073741950 ∧ s4.toNat ≤ 1073741823 ∧ s5.toNat ≤ 1073741823 ∧ s6.toNat ≤ 1073741823 ∧ s7.toNat ≤ 1073741823 ∧ s8.toNat ≤ 1342177279 ∧ s9.toNat ≤ 1342177278 := by
+  have e : elimEven true #v[t0, t1, t2, t3, t4, t5, t6, t7, t8, t9, t10, t11, t12, t13, t14, t15, t16, t17] 0 =
+      (let w := rdEven true ⟨t0, t1, t2, t3, t4, t5, t6, t7, t8, t9⟩
+       #v[w.t0, w.t1, w.t2, w.t3, w.t4, w.t5, w.t6, w.t7, w.t8, w.t9, t10, t11, t12, t13, t14, t15, t16, t17]) := rfl
+  have sp := rdEven_spec ⟨t0, t1, t2, t3, t4, t5, t6, t7, t8, t9⟩ 1073741823 1073741823 1073741823 1073741823 1073741823 1073741823 1073741823 1073741823 1073741823
+    h1 h2 h3 h4 h5 h6 h7 h8 h9
+    (by omega) (by omega) (by omega) (by omega) (by omega) (by omega) (by omega) (by omega) (by omega) (by omega) (by omega) (by omega) (by omega) (by omega) (by omega)
+  generalize rdEven true ⟨t0, t1, t2, t3, t4, t5, t6, t7, t8, t9⟩ = w at e sp
+  obtain ⟨s0, s1, s2, s3, s4, s5, s6, s7, s8, s9⟩ := w
+  dsimp only [winValE] at e sp
+  refine ⟨s0, s1, s2, s3, s4, s5, s6, s7, s8, s9, e, ?_, sp.2⟩
+  have h := sp.1
+  rw [valTmp_lit, valTmp_lit]
+  simp only [P] at h ⊢
+  omega
+
+set_option maxHeartbeats 2000000 in
+theorem elim_step1 (t0 t1 t2 t3 t4 t5 t6 t7 t8 t9 t10 t11 t12 t13 t14 t15 t16 t17 : U32)
+    (h2 : t2.toNat ≤ 1610612607) (h3 : t3.toNat ≤ 1073741950) (h4 : t4.toNat ≤ 1073741823) (h5 : t5.toNat ≤ 1073741823) (h6 : t6.toNat ≤ 1073741823) (h7 : t7.toNat ≤ 1073741823) (h8 : t8.toNat ≤ 1342177279) (h9 : t9.toNat ≤ 1342177278) (h10 : t10.toNat ≤ 1073741823) :
+    ∃ s0 s1 s2 s3 s4 s5 s6 s7 s8 s9 : U32, elimOdd #v[t0, t1, t2, t3, t4, t5, t6, t7, t8, t9, t10, t11, t12, t13, t14, t15, t16, t17] 1 = #v[t0, s0, s1, s2, s3, s4, s5, s6, s7, s8, s9, t11, t12, t13, t14, t15, t16, t17] ∧
+      valTmp #v[t0, s0, s1, s2, s3, s4, s5, s6, s7, s8, s9, t11, t12, t13, t14, t15, t16, t17] = valTmp #v[t0, t1, t2, t3, t4, t5, t6, t7, t8, t9, t10, t11, t12, t13, t14, t15, t16, t17] + (t1.toNat % 268435456) * 2 ^ 29 * P ∧
+      s0.toNat = 0 ∧ s1.toNat ≤ 1610612622 ∧ s2.toNat ≤ 1342177278 ∧ s3.toNat ≤ 1073741950 ∧ s4.toNat ≤ 1073741823 ∧ s5.toNat ≤ 1073741823 ∧ s6.toNat ≤ 1073741823 ∧ s7.toNat ≤ 1342177279 ∧ s8.toNat ≤ 1342177278 ∧ s9.toNat ≤ 1342177278 := by
+  have e : elimOdd #v[t0, t1, t2, t3, t4, t5, t6, t7, t8, t9, t10, t11, t12, t13, t14, t15, t16, t17] 1 =
+      (let w := rdOdd ⟨t1, t2, t3, t4, t5, t6, t7, t8, t9, t10⟩
+       #v[t0, w.t0, w.t1, w.t2, w.t3, w.t4, w.t5, w.t6, w.t7, w.t8, w.t9, t11, t12, t13, t14, t15, t16, t17]) := rfl
+  have sp := rdOdd_spec ⟨t1, t2, t3, t4, t5, t6, t7, t8, t9, t10⟩ 1610612607 1073741950 1073741823 1073741823 1073741823 1073741823 1342177279 1342177278 1073741823
+    h2 h3 h4 h5 h6 h7 h8 h9 h10
+    (by omega) (by omega) (by omega) (by omega) (by omega) (by omega) (by omega) (by omega) (by omega) (by omega) (by omega) (by omega) (by omega) (by omega) (by omega)
+  generalize rdOdd ⟨t1, t2, t3, t4, t5, t6, t7, t8, t9, t10⟩ = w at e sp
+  obtain ⟨s0, s1, s2, s3, s4, s5, s6, s7, s8, s9⟩ := w
+  dsimp only [winValO] at e sp
+  refine ⟨s0, s1, s2, s3, s4, s5, s6, s7, s8, s9, e, ?_, sp.2⟩
+  have h := sp.1
+  rw [valTmp_lit, valTmp_lit]
+  simp only [P] at h ⊢
+  omega
+
+set_option maxHeartbeats 2000000 in
+theorem elim_step2 (t0 t1 t2 t3 t4 t5 t6 t7 t8 t9 t10 t11 t12 t13 t14 t15 t16 t17 : U32)
+    (h3 : t3.toNat ≤ 1342177278) (h4 : t4.toNat ≤ 1073741950) (h5 : t5.toNat ≤ 1073741823) (h6 : t6.toNat ≤ 1073741823) (h7 : t7.toNat ≤ 1073741823) (h8 : t8.toNat ≤ 1342177279) (h9 : t9.toNat ≤ 1342177278) (h10 : t10.toNat ≤ 1342177278) (h11 : t11.toNat ≤ 1073741823) :
+    ∃ s0 s1 s2 s3 s4 s5 s6 s7 s8 s9 : U32, elimEven true #v[t0, t1, t2, t3, t4, t5, t6, t7, t8, t9, t10, t11, t12, t13, t14, t15, t16, t17] 2 = #v[t0, t1, s0, s1, s2, s3, s4, s5, s6, s7, s8, s9, t12, t13, t14, t15, t16, t17] ∧
+      valTmp #v[t0, t1, s0, s1, s2, s3, s4, s5, s6, s7, s8, s9, t12, t13, t14, t15, t16, t17] = valTmp #v[t0, t1, t2, t3, t4, t5, t6, t7, t8, t9, t10, t11, t12, t13, t14, t15, t16, t17] + (t2.toNat % 536870912) * 2 ^ 57 * P ∧
+      s0.toNat = 0 ∧ s1.toNat ≤ 1342177285 ∧ s2.toNat ≤ 1610612734 ∧ s3.toNat ≤ 1073741950 ∧ s4.toNat ≤ 1073741823 ∧ s5.toNat ≤ 1073741823 ∧ s6.toNat ≤ 1342177279 ∧ s7.toNat ≤ 1342177278 ∧ s8.toNat ≤ 1610612734 ∧ s9.toNat ≤ 1342177278 := by
+  have e : elimEven true #v[t0, t1, t2, t3, t4, t5, t6, t7, t8, t9, t10, t11, t12, t13, t14, t15, t16, t17] 2 =
+      (let w := rdEven true ⟨t2, t3, t4, t5, t6, t7, t8, t9, t10, t11⟩
+       #v[t0, t1, w.t0, w.t1, w.t2, w.t3, w.t4, w.t5, w.t6, w.t7, w.t8, w.t9, t12, t13, t14, t15, t16, t17]) := rfl
+  have sp := rdEven_spec ⟨t2, t3, t4, t5, t6, t7, t8, t9, t10, t11⟩ 1342177278 1073741950 1073741823 1073741823 1073741823 1342177279 1342177278 1342177278 1073741823
+    h3 h4 h5 h6 h7 h8 h9 h10 h11
+    (by omega) (by omega) (by omega) (by omega) (by omega) (by omega) (by omega) (by omega) (by omega) (by omega) (by omega) (by omega) (by omega) (by omega) (by omega)
+  generalize rdEven true ⟨t2, t3, t4, t5, t6, t7, t8, t9, t10, t11⟩ = w at e sp
+  obtain ⟨s0, s1, s2, s3, s4, s5, s6, s7, s8, s9⟩ := w
+  dsimp only [winValE] at e sp
+  refine ⟨s0, s1, s2, s3, s4, s5, s6, s7, s8, s9, e, ?_, sp.2⟩
+  have h := sp.1
+  rw [valTmp_lit, valTmp_lit]
+  simp only [P] at h ⊢
+  omega
+
+set_option maxHeartbeats 2000000 in
+theorem elim_step3 (t0 t1 t2 t3 t4 t5 t6 t7 t8 t9 t10 t11 t12 t13 t14 t15 t16 t17 : U32)
+    (h4 : t4.toNat ≤ 1610612734) (h5 : t5.toNat ≤ 1073741950) (h6 : t6.toNat ≤ 1073741823) (h7 : t7.toNat ≤ 1073741823) (h8 : t8.toNat ≤ 1342177279) (h9 : t9.toNat ≤ 1342177278) (h10 : t10.toNat ≤ 1610612734) (h11 : t11.toNat ≤ 1342177278) (h12 : t12.toNat ≤ 1073741823) :
+    ∃ s0 s1 s2 s3 s4 s5 s6 s7 s8 s9 : U32, elimOdd #v[t0, t1, t2, t3, t4, t5, t6, t7, t8, t9, t10, t11, t12, t13, t14, t15, t16, t17] 3 = #v[t0, t1, t2, s0, s1, s2, s3, s4, s5, s6, s7, s8, s9, t13, t14, t15, t16, t17] ∧
+      valTmp #v[t0, t1, t2, s0, s1, s2, s3, s4, s5, s6, s7, s8, s9, t13, t14, t15, t16, t17] = valTmp #v[t0, t1, t2, t3, t4, t5, t6, t7, t8, t9, t10, t11, t12, t13, t14, t15, t16, t17] + (t3.toNat % 268435456) * 2 ^ 86 * P ∧
+      s0.toNat = 0 ∧ s1.toNat ≤ 1610612749 ∧ s2.toNat ≤ 1342177278 ∧ s3.toNat ≤ 1073741950 ∧ s4.toNat ≤ 1073741823 ∧ s5.toNat ≤ 1342177279 ∧ s6.toNat ≤ 1342177278 ∧ s7.toNat ≤ 1610612734 ∧ s8.toNat ≤ 1342177278 ∧ s9.toNat ≤ 1342177278 := by
+  have e : elimOdd #v[t0, t1, t2, t3, t4, t5, t6, t7, t8, t9, t10, t11, t12, t13, t14, t15, t16, t17] 3 =
+      (let w := rdOdd ⟨t3, t4, t5, t6, t7, t8, t9, t10, t11, t12⟩
+       #v[t0, t1, t2, w.t0, w.t1, w.t2, w.t3, w.t4, w.t5, w.t6, w.t7, w.t8, w.t9, t13, t14, t15, t16, t17]) := rfl
+  have sp := rdOdd_spec ⟨t3, t4, t5, t6, t7, t8, t9, t10, t11, t12⟩ 1610612734 1073741950 1073741823 1073741823 1342177279 1342177278 1610612734 1342177278 1073741823
+    h4 h5 h6 h7 h8 h9 h10 h11 h12
+    (by omega) (by omega) (by omega) (by omega) (by omega) (by omega) (by omega) (by omega) (by omega) (by omega) (by omega) (by omega) (by omega) (by omega) (by omega)
+  generalize rdOdd ⟨t3, t4, t5, t6, t7, t8, t9, t10, t11, t12⟩ = w at e sp
+  obtain ⟨s0, s1, s2, s3, s4, s5, s6, s7, s8, s9⟩ := w
+  dsimp only [winValO] at e sp
+  refine ⟨s0, s1, s2, s3, s4, s5, s6, s7, s8, s9, e, ?_, sp.2⟩
+  have h := sp.1
+  rw [valTmp_lit, valTmp_lit]
+  simp only [P] at h ⊢
+  omega
+
+set_option maxHeartbeats 2000000 in
+theorem elim_step4 (t0 t1 t2 t3 t4 t5 t6 t7 t8 t9 t10 t11 t12 t13 t14 t15 t16 t17 : U32)
+    (h5 : t5.toNat ≤ 1342177278) (h6 : t6.toNat ≤ 1073741950) (h7 : t7.toNat ≤ 1073741823) (h8 : t8.toNat ≤ 1342177279) (h9 : t9.toNat ≤ 1342177278) (h10 : t10.toNat ≤ 1610612734) (h11 : t11.toNat ≤ 1342177278) (h12 : t12.toNat ≤ 1342177278) (h13 : t13.toNat ≤ 1073741823) :
+    ∃ s0 s1 s2 s3 s4 s5 s6 s7 s8 s9 : U32, elimEven true #v[t0, t1, t2, t3, t4, t5, t6, t7, t8, t9, t10, t11, t12, t13, t14, t15, t16, t17] 4 = #v[t0, t1, t2, t3, s0, s1, s2, s3, s4, s5, s6, s7, s8, s9, t14, t15, t16, t17] ∧
+      valTmp #v[t0, t1, t2, t3, s0, s1, s2, s3, s4, s5, s6, s7, s8, s9, t14, t15, t16, t17] = valTmp #v[t0, t1, t2, t3, t4, t5, t6, t7, t8, t9, t10, t11, t12, t13, t14, t15, t16, t17] + (t4.toNat % 536870912) * 2 ^ 114 * P ∧
+      s0.toNat = 0 ∧ s1.toNat ≤ 1342177285 ∧ s2.toNat ≤ 1610612734 ∧ s3.toNat ≤ 1073741950 ∧ s4.toNat ≤ 1342177279 ∧ s5.toNat ≤ 1342177278 ∧ s6.toNat ≤ 1610612734 ∧ s7.toNat ≤ 1342177278 ∧ s8.toNat ≤ 1610612734 ∧ s9.toNat ≤ 1342177278 := by
+  have e : elimEven true #v[t0, t1, t2, t3, t4, t5, t6, t7, t8, t9, t10, t11, t12, t13, t14, t15, t16, t17] 4 =
+      (let w := rdEven true ⟨t4, t5, t6, t7, t8, t9, t10, t11, t12, t13⟩
+       #v[t0, t1, t2, t3, w.t0, w.t1, w.t2, w.t3, w.t4, w.t5, w.t6, w.t7, w.t8, w.t9, t14, t15, t16, t17]) := rfl
+  have sp := rdEven_spec ⟨t4, t5, t6, t7, t8, t9, t10, t11, t12, t13⟩ 1342177278 1073741950 1073741823 1342177279 1342177278 1610612734 1342177278 1342177278 1073741823
+    h5 h6 h7 h8 h9 h10 h11 h12 h13
+    (by omega) (by omega) (by omega) (by omega) (by omega) (by omega) (by omega) (by omega) (by omega) (by omega) (by omega) (by omega) (by omega) (by omega) (by omega)
+  generalize rdEven true ⟨t4, t5, t6, t7, t8, t9, t10, t11, t12, t13⟩ = w at e sp
+  obtain ⟨s0, s1, s2, s3, s4, s5, s6, s7, s8, s9⟩ := w
+  dsimp only [winValE] at e sp
+  refine ⟨s0, s1, s2, s3, s4, s5, s6, s7, s8, s9, e, ?_, sp.2⟩
+  have h := sp.1
+  rw [valTmp_lit, valTmp_lit]
+  simp only [P] at h ⊢
+  omega
+
+set_option maxHeartbeats 2000000 in
+theorem elim_step5 (t0 t1 t2 t3 t4 t5 t6 t7 t8 t9 t10 t11 t12 t13 t14 t15 t16 t17 : U32)
+    (h6 : t6.toNat ≤ 1610612734) (h7 : t7.toNat ≤ 1073741950) (h8 : t8.toNat ≤ 1342177279) (h9 : t9.toNat ≤ 1342177278) (h10 : t10.toNat ≤ 1610612734) (h11 : t11.toNat ≤ 1342177278) (h12 : t12.toNat ≤ 1610612734) (h13 : t13.toNat ≤ 1342177278) (h14 : t14.toNat ≤ 1073741823) :
+    ∃ s0 s1 s2 s3 s4 s5 s6 s7 s8 s9 : U32, elimOdd #v[t0, t1, t2, t3, t4, t5, t6, t7, t8, t9, t10, t11, t12, t13, t14, t15, t16, t17] 5 = #v[t0, t1, t2, t3, t4, s0, s1, s2, s3, s4, s5, s6, s7, s8, s9, t15, t16, t17] ∧
+      valTmp #v[t0, t1, t2, t3, t4, s0, s1, s2, s3, s4, s5, s6, s7, s8, s9, t15, t16, t17] = valTmp #v[t0, t1, t2, t3, t4, t5, t6, t7, t8, t9, t10, t11, t12, t13, t14, t15, t16, t17] + (t5.toNat % 268435456) * 2 ^ 143 * P ∧
+      s0.toNat = 0 ∧ s1.toNat ≤ 1610612749 ∧ s2.toNat ≤ 1342177278 ∧ s3.toNat ≤ 1342177406 ∧ s4.toNat ≤ 1342177278 ∧ s5.toNat ≤ 1610612734 ∧ s6.toNat ≤ 1342177278 ∧ s7.toNat ≤ 1610612734 ∧ s8.toNat ≤ 1342177278 ∧ s9.toNat ≤ 1342177278 := by
+  have e : elimOdd #v[t0, t1, t2, t3, t4, t5, t6, t7, t8, t9, t10, t11, t12, t13, t14, t15, t16, t17] 5 =
+      (let w := rdOdd ⟨t5, t6, t7, t8, t9, t10, t11, t12, t13, t14⟩
+       #v[t0, t1, t2, t3, t4, w.t0, w.t1, w.t2, w.t3, w.t4, w.t5, w.t6, w.t7, w.t8, w.t9, t15, t16, t17]) := rfl
+  have sp := rdOdd_spec ⟨t5, t6, t7, t8, t9, t10, t11, t12, t13, t14⟩ 1610612734 1073741950 1342177279 1342177278 1610612734 1342177278 1610612734 1342177278 1073741823
+    h6 h7 h8 h9 h10 h11 h12 h13 h14
+    (by omega) (by omega) (by omega) (by omega) (by omega) (by omega) (by omega) (by omega) (by omega) (by omega) (by omega) (by omega) (by omega) (by omega) (by omega)
+  generalize rdOdd ⟨t5, t6, t7, t8, t9, t10, t11, t12, t13, t14⟩ = w at e sp
+  obtain ⟨s0, s1, s2, s3, s4, s5, s6, s7, s8, s9⟩ := w
+  dsimp only [winValO] at e sp
+  refine ⟨s0, s1, s2, s3, s4, s5, s6, s7, s8, s9, e, ?_, sp.2⟩
+  have h := sp.1
+  rw [valTmp_lit, valTmp_lit]
+  simp only [P] at h ⊢
+  omega
+
+set_option maxHeartbeats 2000000 in
+theorem elim_step6 (t0 t1 t2 t3 t4 t5 t6 t7 t8 t9 t10 t11 t12 t13 t14 t15 t16 t17 : U32)
+    (h7 : t7.toNat ≤ 1342177278) (h8 : t8.toNat ≤ 1342177406) (h9 : t9.toNat ≤ 1342177278) (h10 : t10.toNat ≤ 1610612734) (h11 : t11.toNat ≤ 1342177278) (h12 : t12.toNat ≤ 1610612734) (h13 : t13.toNat ≤ 1342177278) (h14 : t14.toNat ≤ 1342177278) (h15 : t15.toNat ≤ 1073741823) :
+    ∃ s0 s1 s2 s3 s4 s5 s6 s7 s8 s9 : U32, elimEven true #v[t0, t1, t2, t3, t4, t5, t6, t7, t8, t9, t10, t11, t12, t13, t14, t15, t16, t17] 6 = #v[t0, t1, t2, t3, t4, t5, s0, s1, s2, s3, s4, s5, s6, s7, s8, s9, t16, t17] ∧
+      valTmp #v[t0, t1, t2, t3, t4, t5, s0, s1, s2, s3, s4, s5, s6, s7, s8, s9, t16, t17] = valTmp #v[t0, t1, t2, t3, t4, t5, t6, t7, t8, t9, t10, t11, t12, t13, t14, t15, t16, t17] + (t6.toNat % 536870912) * 2 ^ 171 * P ∧
+      s0.toNat = 0 ∧ s1.toNat ≤ 1342177285 ∧ s2.toNat ≤ 1879048190 ∧ s3.toNat ≤ 1342177405 ∧ s4.toNat ≤ 1610612734 ∧ s5.toNat ≤ 1342177278 ∧ s6.toNat ≤ 1610612734 ∧ s7.toNat ≤ 1342177278 ∧ s8.toNat ≤ 1610612734 ∧ s9.toNat ≤ 1342177278 := by
+  have e : elimEven true #v[t0, t1, t2, t3, t4, t5, t6, t7, t8, t9, t10, t11, t12, t13, t14, t15, t16, t17] 6 =
+      (let w := rdEven true ⟨t6, t7, t8, t9, t10, t11, t12, t13, t14, t15⟩
+       #v[t0, t1, t2, t3, t4, t5, w.t0, w.t1, w.t2, w.t3, w.t4, w.t5, w.t6, w.t7, w.t8, w.t9, t16, t17]) := rfl
+  have sp := rdEven_spec ⟨t6, t7, t8, t9, t10, t11, t12, t13, t14, t15⟩ 1342177278 1342177406 1342177278 1610612734 1342177278 1610612734 1342177278 1342177278 1073741823
+    h7 h8 h9 h10 h11 h12 h13 h14 h15
+    (by omega) (by omega) (by omega) (by omega) (by omega) (by omega) (by omega) (by omega) (by omega) (by omega) (by omega) (by omega) (by omega) (by omega) (by omega)
+  generalize rdEven true ⟨t6, t7, t8, t9, t10, t11, t12, t13, t14, t15⟩ = w at e sp
+  obtain ⟨s0, s1, s2, s3, s4, s5, s6, s7, s8, s9⟩ := w
+  dsimp only [winValE] at e sp
+  refine ⟨s0, s1, s2, s3, s4, s5, s6, s7, s8, s9, e, ?_, sp.2⟩
+  have h := sp.1
+  rw [valTmp_lit, valTmp_lit]
+  simp only [P] at h ⊢
+  omega
+
+set_option maxHeartbeats 2000000 in
+theorem elim_step7 (t0 t1 t2 t3 t4 t5 t6 t7 t8 t9 t10 t11 t12 t13 t14 t15 t16 t17 : U32)
+    (h8 : t8.toNat ≤ 1879048190) (h9 : t9.toNat ≤ 1342177405) (h10 : t10.toNat ≤ 1610612734) (h11 : t11.toNat ≤ 1342177278) (h12 : t12.toNat ≤ 1610612734) (h13 : t13.toNat ≤ 1342177278) (h14 : t14.toNat ≤ 1610612734) (h15 : t15.toNat ≤ 1342177278) (h16 : t16.toNat ≤ 1073741823) :
+    ∃ s0 s1 s2 s3 s4 s5 s6 s7 s8 s9 : U32, elimOdd #v[t0, t1, t2, t3, t4, t5, t6, t7, t8, t9, t10, t11, t12, t13, t14, t15, t16, t17] 7 = #v[t0, t1, t2, t3, t4, t5, t6, s0, s1, s2, s3, s4, s5, s6, s7, s8, s9, t17] ∧
+      valTmp #v[t0, t1, t2, t3, t4, t5, t6, s0, s1, s2, s3, s4, s5, s6, s7, s8, s9, t17] = valTmp #v[t0, t1, t2, t3, t4, t5, t6, t7, t8, t9, t10, t11, t12, t13, t14, t15, t16, t17] + (t7.toNat % 268435456) * 2 ^ 200 * P ∧
+      s0.toNat = 0 ∧ s1.toNat ≤ 1879048205 ∧ s2.toNat ≤ 1610612733 ∧ s3.toNat ≤ 1610612861 ∧ s4.toNat ≤ 1342177278 ∧ s5.toNat ≤ 1610612734 ∧ s6.toNat ≤ 1342177278 ∧ s7.toNat ≤ 1610612734 ∧ s8.toNat ≤ 1342177278 ∧ s9.toNat ≤ 1342177278 := by
+  have e : elimOdd #v[t0, t1, t2, t3, t4, t5, t6, t7, t8, t9, t10, t11, t12, t13, t14, t15, t16, t17] 7 =
+      (let w := rdOdd ⟨t7, t8, t9, t10, t11, t12, t13, t14, t15, t16⟩
+       #v[t0, t1, t2, t3, t4, t5, t6, w.t0, w.t1, w.t2, w.t3, w.t4, w.t5, w.t6, w.t7, w.t8, w.t9, t17]) := rfl
+  have sp := rdOdd_spec ⟨t7, t8, t9, t10, t11, t12, t13, t14, t15, t16⟩ 1879048190 1342177405 1610612734 1342177278 1610612734 1342177278 1610612734 1342177278 1073741823
+    h8 h9 h10 h11 h12 h13 h14 h15 h16
+    (by omega) (by omega) (by omega) (by omega) (by omega) (by omega) (by omega) (by omega) (by omega) (by omega) (by omega) (by omega) (by omega) (by omega) (by omega)
+  generalize rdOdd ⟨t7, t8, t9, t10, t11, t12, t13, t14, t15, t16⟩ = w at e sp
+  obtain ⟨s0, s1, s2, s3, s4, s5, s6, s7, s8, s9⟩ := w
+  dsimp only [winValO] at e sp
+  refine ⟨s0, s1, s2, s3, s4, s5, s6, s7, s8, s9, e, ?_, sp.2⟩
+  have h := sp.1
+  rw [valTmp_lit, valTmp_lit]
+  simp only [P] at h ⊢
+  omega
+
+set_option maxHeartbeats 2000000 in
+theorem elim_step8 (t0 t1 t2 t3 t4 t5 t6 t7 t8 t9 t10 t11 t12 t13 t14 t15 t16 t17 : U32)
+    (h9 : t9.toNat ≤ 1610612733) (h10 : t10.toNat ≤ 1610612861) (h11 : t11.toNat ≤ 1342177278) (h12 : t12.toNat ≤ 1610612734) (h13 : t13.toNat ≤ 1342177278) (h14 : t14.toNat ≤ 1610612734) (h15 : t15.toNat ≤ 1342177278) (h16 : t16.toNat ≤ 1342177278) (h17 : t17.toNat ≤ 2147483903) :
+    ∃ s0 s1 s2 s3 s4 s5 s6 s7 s8 s9 : U32, elimEven true #v[t0, t1, t2, t3, t4, t5, t6, t7, t8, t9, t10, t11, t12, t13, t14, t15, t16, t17] 8 = #v[t0, t1, t2, t3, t4, t5, t6, t7, s0, s1, s2, s3, s4, s5, s6, s7, s8, s9] ∧
+      valTmp #v[t0, t1, t2, t3, t4, t5, t6, t7, s0, s1, s2, s3, s4, s5, s6, s7, s8, s9] = valTmp #v[t0, t1, t2, t3, t4, t5, t6, t7, t8, t9, t10, t11, t12, t13, t14, t15, t16, t17] + (t8.toNat % 536870912) * 2 ^ 228 * P ∧
+      s0.toNat = 0 ∧ s1.toNat ≤ 1610612740 ∧ s2.toNat ≤ 2147483645 ∧ s3.toNat ≤ 1342177405 ∧ s4.toNat ≤ 1610612734 ∧ s5.toNat ≤ 1342177278 ∧ s6.toNat ≤ 1610612734 ∧ s7.toNat ≤ 1342177278 ∧ s8.toNat ≤ 1610612734 ∧ s9.toNat ≤ 2415919358 := by
+  have e : elimEven true #v[t0, t1, t2, t3, t4, t5, t6, t7, t8, t9, t10, t11, t12, t13, t14, t15, t16, t17] 8 =
+      (let w := rdEven true ⟨t8, t9, t10, t11, t12, t13, t14, t15, t16, t17⟩
+       #v[t0, t1, t2, t3, t4, t5, t6, t7, w.t0, w.t1, w.t2, w.t3, w.t4, w.t5, w.t6, w.t7, w.t8, w.t9]) := rfl
+  have sp := rdEven_spec ⟨t8, t9, t10, t11, t12, t13, t14, t15, t16, t17⟩ 1610612733 1610612861 1342177278 1610612734 1342177278 1610612734 1342177278 1342177278 2147483903
+    h9 h10 h11 h12 h13 h14 h15 h16 h17
+    (by omega) (by omega) (by omega) (by omega) (by omega) (by omega) (by omega) (by omega) (by omega) (by omega) (by omega) (by omega) (by omega) (by omega) (by omega)
+  generalize rdEven true ⟨t8, t9, t10, t11, t12, t13, t14, t15, t16, t17⟩ = w at e sp
+  obtain ⟨s0, s1, s2, s3, s4, s5, s6, s7, s8, s9⟩ := w
+  dsimp only [winValE] at e sp
+  refine ⟨s0, s1, s2, s3, s4, s5, s6, s7, s8, s9, e, ?_, sp.2⟩
+  have h := sp.1
+  rw [valTmp_lit, valTmp_lit]
+  simp only [P] at h ⊢
+  omega
+
+set_option maxHeartbeats 2000000 in
+/-- the elimination loop (repaired source): for words within the bounds `repack` guarantees, the nine steps
+    clear words 0..8, only add multiples of p to the weighted sum, and never wrap a word -/
+theorem eliminate_lit (t0 t1 t2 t3 t4 t5 t6 t7 t8 t9 t10 t11 t12 t13 t14 t15 t16 t17 : U32)
+    (_h0 : t0.toNat ≤ 1073741823) (h1 : t1.toNat ≤ 1073741823) (h2 : t2.toNat ≤ 1073741823) (h3 : t3.toNat ≤ 1073741823) (h4 : t4.toNat ≤ 1073741823) (h5 : t5.toNat ≤ 1073741823) (h6 : t6.toNat ≤ 1073741823) (h7 : t7.toNat ≤ 1073741823) (h8 : t8.toNat ≤ 1073741823) (h9 : t9.toNat ≤ 1073741823) (h10 : t10.toNat ≤ 1073741823) (h11 : t11.toNat ≤ 1073741823) (h12 : t12.toNat ≤ 1073741823) (h13 : t13.toNat ≤ 1073741823) (h14 : t14.toNat ≤ 1073741823) (h15 : t15.toNat ≤ 1073741823) (h16 : t16.toNat ≤ 1073741823) (h17 : t17.toNat ≤ 2147483903) :
+    ∃ s9 s10 s11 s12 s13 s14 s15 s16 s17 : U32, eliminate true #v[t0, t1, t2, t3, t4, t5, t6, t7, t8, t9, t10, t11, t12, t13, t14, t15, t16, t17] = #v[0, 0, 0, 0, 0, 0, 0, 0, 0, s9, s10, s11, s12, s13, s14, s15, s16, s17] ∧
+      valTmp #v[0, 0, 0, 0, 0, 0, 0, 0, 0, s9, s10, s11, s12, s13, s14, s15, s16, s17] % P = valTmp #v[t0, t1, t2, t3, t4, t5, t6, t7, t8, t9, t10, t11, t12, t13, t14, t15, t16, t17] % P ∧
+      s9.toNat ≤ 1610612740 ∧ s10.toNat ≤ 2147483645 ∧ s11.toNat ≤ 1342177405 ∧ s12.toNat ≤ 1610612734 ∧ s13.toNat ≤ 1342177278 ∧ s14.toNat ≤ 1610612734 ∧ s15.toNat ≤ 1342177278 ∧ s16.toNat ≤ 1610612734 ∧ s17.toNat ≤ 2415919358 := by
+  have e : eliminate true #v[t0, t1, t2, t3, t4, t5, t6, t7, t8, t9, t10, t11, t12, t13, t14, t15, t16, t17] =
+      elimEven true (elimOdd (elimEven true (elimOdd (elimEven true (elimOdd (elimEven true (elimOdd (elimEven true
+        #v[t0, t1, t2, t3, t4, t5, t6, t7, t8, t9, t10, t11, t12, t13, t14, t15, t16, t17] 0) 1) 2) 3) 4) 5) 6) 7) 8 := rfl
+  rw [e]; clear e
+  obtain ⟨x0_0, x0_1, x0_2, x0_3, x0_4, x0_5, x0_6, x0_7, x0_8, x0_9, e0, v0, z0, b0_1, b0_2, b0_3, b0_4, b0_5, b0_6, b0_7, b0_8, b0_9⟩ := elim_step0 t0 t1 t2 t3 t4 t5 t6 t7 t8 t9 t10 t11 t12 t13 t14 t15 t16 t17 h1 h2 h3 h4 h5 h6 h7 h8 h9
+  rw [e0]; clear e0
+  have m0 := congrArg (· % P) v0; simp only [← Nat.mul_assoc, Nat.add_mul_mod_self_right] at m0; clear v0
+  have zz0 : x0_0 = 0 := BitVec.eq_of_toNat_eq z0
+  subst zz0
+  obtain ⟨x1_0, x1_1, x1_2, x1_3, x1_4, x1_5, x1_6, x1_7, x1_8, x1_9, e1, v1, z1, b1_1, b1_2, b1_3, b1_4, b1_5, b1_6, b1_7, b1_8, b1_9⟩ := elim_step1 0 x0_1 x0_2 x0_3 x0_4 x0_5 x0_6 x0_7 x0_8 x0_9 t10 t11 t12 t13 t14 t15 t16 t17 b0_2 b0_3 b0_4 b0_5 b0_6 b0_7 b0_8 b0_9 h10
+  rw [e1]; clear e1
+  have m1 := congrArg (· % P) v1; simp only [← Nat.mul_assoc, Nat.add_mul_mod_self_right] at m1; clear v1
+  have zz1 : x1_0 = 0 := BitVec.eq_of_toNat_eq z1
+  subst zz1
+  obtain ⟨x2_0, x2_1, x2_2, x2_3, x2_4, x2_5, x2_6, x2_7, x2_8, x2_9, e2, v2, z2, b2_1, b2_2, b2_3, b2_4, b2_5, b2_6, b2_7, b2_8, b2_9⟩ := elim_step2 0 0 x1_1 x1_2 x1_3 x1_4 x1_5 x1_6 x1_7 x1_8 x1_9 t11 t12 t13 t14 t15 t16 t17 b1_2 b1_3 b1_4 b1_5 b1_6 b1_7 b1_8 b1_9 h11
+  rw [e2]; clear e2
+  have m2 := congrArg (· % P) v2; simp only [← Nat.mul_assoc, Nat.add_mul_mod_self_right] at m2; clear v2
+  have zz2 : x2_0 = 0 := BitVec.eq_of_toNat_eq z2
+  subst zz2
+  obtain ⟨x3_0, x3_1, x3_2, x3_3, x3_4, x3_5, x3_6, x3_7, x3_8, x3_9, e3, v3, z3, b3_1, b3_2, b3_3, b3_4, b3_5, b3_6, b3_7, b3_8, b3_9⟩ := elim_step3 0 0 0 x2_1 x2_2 x2_3 x2_4 x2_5 x2_6 x2_7 x2_8 x2_9 t12 t13 t14 t15 t16 t17 b2_2 b2_3 b2_4 b2_5 b2_6 b2_7 b2_8 b2_9 h12
+  rw [e3]; clear e3
+  have m3 := congrArg (· % P) v3; simp only [← Nat.mul_assoc, Nat.add_mul_mod_self_right] at m3; clear v3
+  have zz3 : x3_0 = 0 := BitVec.eq_of_toNat_eq z3
+  subst zz3
+  obtain ⟨x4_0, x4_1, x4_2, x4_3, x4_4, x4_5, x4_6, x4_7, x4_8, x4_9, e4, v4, z4, b4_1, b4_2, b4_3, b4_4, b4_5, b4_6, b4_7, b4_8, b4_9⟩ := elim_step4 0 0 0 0 x3_1 x3_2 x3_3 x3_4 x3_5 x3_6 x3_7 x3_8 x3_9 t13 t14 t15 t16 t17 b3_2 b3_3 b3_4 b3_5 b3_6 b3_7 b3_8 b3_9 h13
+  rw [e4]; clear e4
+  have m4 := congrArg (· % P) v4; simp only [← Nat.mul_assoc, Nat.add_mul_mod_self_right] at m4; clear v4
+  have zz4 : x4_0 = 0 := BitVec.eq_of_toNat_eq z4
+  subst zz4
+  obtain ⟨x5_0, x5_1, x5_2, x5_3, x5_4, x5_5, x5_6, x5_7, x5_8, x5_9, e5, v5, z5, b5_1, b5_2, b5_3, b5_4, b5_5, b5_6, b5_7, b5_8, b5_9⟩ := elim_step5 0 0 0 0 0 x4_1 x4_2 x4_3 x4_4 x4_5 x4_6 x4_7 x4_8 x4_9 t14 t15 t16 t17 b4_2 b4_3 b4_4 b4_5 b4_6 b4_7 b4_8 b4_9 h14
+  rw [e5]; clear e5
+  have m5 := congrArg (· % P) v5; simp only [← Nat.mul_assoc, Nat.add_mul_mod_self_right] at m5; clear v5
+  have zz5 : x5_0 = 0 := BitVec.eq_of_toNat_eq z5
+  subst zz5
+  obtain ⟨x6_0, x6_1, x6_2, x6_3, x6_4, x6_5, x6_6, x6_7, x6_8, x6_9, e6, v6, z6, b6_1, b6_2, b6_3, b6_4, b6_5, b6_6, b6_7, b6_8, b6_9⟩ := elim_step6 0 0 0 0 0 0 x5_1 x5_2 x5_3 x5_4 x5_5 x5_6 x5_7 x5_8 x5_9 t15 t16 t17 b5_2 b5_3 b5_4 b5_5 b5_6 b5_7 b5_8 b5_9 h15
+  rw [e6]; clear e6
+  have m6 := congrArg (· % P) v6; simp only [← Nat.mul_assoc, Nat.add_mul_mod_self_right] at m6; clear v6
+  have zz6 : x6_0 = 0 := BitVec.eq_of_toNat_eq z6
+  subst zz6
+  obtain ⟨x7_0, x7_1, x7_2, x7_3, x7_4, x7_5, x7_6, x7_7, x7_8, x7_9, e7, v7, z7, b7_1, b7_2, b7_3, b7_4, b7_5, b7_6, b7_7, b7_8, b7_9⟩ := elim_step7 0 0 0 0 0 0 0 x6_1 x6_2 x6_3 x6_4 x6_5 x6_6 x6_7 x6_8 x6_9 t16 t17 b6_2 b6_3 b6_4 b6_5 b6_6 b6_7 b6_8 b6_9 h16
+  rw [e7]; clear e7
+  have m7 := congrArg (· % P) v7; simp only [← Nat.mul_assoc, Nat.add_mul_mod_self_right] at m7; clear v7
+  have zz7 : x7_0 = 0 := BitVec.eq_of_toNat_eq z7
+  subst zz7
+  obtain ⟨x8_0, x8_1, x8_2, x8_3, x8_4, x8_5, x8_6, x8_7, x8_8, x8_9, e8, v8, z8, b8_1, b8_2, b8_3, b8_4, b8_5, b8_6, b8_7, b8_8, b8_9⟩ := elim_step8 0 0 0 0 0 0 0 0 x7_1 x7_2 x7_3 x7_4 x7_5 x7_6 x7_7 x7_8 x7_9 t17 b7_2 b7_3 b7_4 b7_5 b7_6 b7_7 b7_8 b7_9 h17
+  rw [e8]; clear e8
+  have m8 := congrArg (· % P) v8; simp only [← Nat.mul_assoc, Nat.add_mul_mod_self_right] at m8; clear v8
+  have zz8 : x8_0 = 0 := BitVec.eq_of_toNat_eq z8
+  subst zz8
+  refine ⟨x8_1, x8_2, x8_3, x8_4, x8_5, x8_6, x8_7, x8_8, x8_9, rfl, ?_, b8_1, b8_2, b8_3, b8_4, b8_5, b8_6, b8_7, b8_8, b8_9⟩
+  rw [m8, m7, m6, m5, m4, m3, m2, m1, m0]
+
+-- (e) sm2P256ReduceDegree: the last loop and the theorem --------------------------------------------------------------
+
+theorem outEven_spec (t9 t10 c : U32) (h9 : t9.toNat ≤ 3000000000) (hc : c.toNat ≤ 16) :
+    (outEven t9 t10 c).1.toNat = (t9.toNat + c.toNat + t10.toNat % 2 * 268435456) % 536870912 ∧
+    (outEven t9 t10 c).2.toNat = (t9.toNat + c.toNat + t10.toNat % 2 * 268435456) / 536870912 := by
+  unfold outEven
+  dsimp only
+  have e : (t9 + c + (t10 <<< 28 &&& bottom29Bits)).toNat = t9.toNat + c.toNat + t10.toNat % 2 * 268435456 := by
+    bvexact
+  rw [and29, shr32, e]
+  exact ⟨rfl, rfl⟩
+
+theorem outOdd_spec (t9 c : U32) (hc : c.toNat ≤ 16) :
+    (outOdd t9 c).1.toNat = (t9.toNat / 2 + c.toNat) % 268435456 ∧
+    (outOdd t9 c).2.toNat = (t9.toNat / 2 + c.toNat) / 268435456 := by
+  unfold outOdd
+  dsimp only
+  have := lt32 t9
+  have e : (t9 >>> 1 + c).toNat = t9.toNat / 2 + c.toNat := by bvexact
+  rw [and28, shr32, e]
+  exact ⟨rfl, rfl⟩
+
+set_option maxHeartbeats 2000000 in
+/-- the last loop of `sm2P256ReduceDegree`: with words 0..8 cleared, the nine upper words (weights
+    2^257·(1, 2^28, 2^57, …)) are repacked into canonical limbs and a carry < 8:
+    `(value a + carry·2^257)·2^257 = Σ tmp` -/
+theorem outChain_lit (s9 s10 s11 s12 s13 s14 s15 s16 s17 : U32)
+    (h9 : s9.toNat ≤ 3000000000) (h10 : s10.toNat ≤ 3000000000) (h11 : s11.toNat ≤ 3000000000)
+    (h12 : s12.toNat ≤ 3000000000) (h13 : s13.toNat ≤ 3000000000) (h14 : s14.toNat ≤ 3000000000)
+    (h15 : s15.toNat ≤ 3000000000) (h16 : s16.toNat ≤ 3000000000) (h17 : s17.toNat ≤ 3000000000) :
+    let r := outChain #v[0, 0, 0, 0, 0, 0, 0, 0, 0, s9, s10, s11, s12, s13, s14, s15, s16, s17]
+    (value r.1 + r.2.toNat * 2 ^ 257) * 2 ^ 257
+      = valTmp #v[0, 0, 0, 0, 0, 0, 0, 0, 0, s9, s10, s11, s12, s13, s14, s15, s16, s17] ∧
+    Canon r.1 ∧ r.2.toNat < 8 := by
+  have hr : ∃ r0 r1 r2 r3 r4 r5 r6 r7 a8, r0 = outEven s9 s10 0 ∧ r1 = outOdd s10 r0.2 ∧
+      r2 = outEven s11 s12 r1.2 ∧ r3 = outOdd s12 r2.2 ∧ r4 = outEven s13 s14 r3.2 ∧ r5 = outOdd s14 r4.2 ∧
+      r6 = outEven s15 s16 r5.2 ∧ r7 = outOdd s16 r6.2 ∧ a8 = s17 + r7.2 ∧
+      outChain #v[0, 0, 0, 0, 0, 0, 0, 0, 0, s9, s10, s11, s12, s13, s14, s15, s16, s17] =
+        (#v[r0.1, r1.1, r2.1, r3.1, r4.1, r5.1, r6.1, r7.1, a8 &&& bottom29Bits], a8 >>> 29) :=
+    ⟨_, _, _, _, _, _, _, _, _, rfl, rfl, rfl, rfl, rfl, rfl, rfl, rfl, rfl, rfl⟩
+  obtain ⟨r0, r1, r2, r3, r4, r5, r6, r7, a8, e0, e1, e2, e3, e4, e5, e6, e7, e8, e⟩ := hr
+  intro r
+  have er : r = (#v[r0.1, r1.1, r2.1, r3.1, r4.1, r5.1, r6.1, r7.1, a8 &&& bottom29Bits], a8 >>> 29) := e
+  clear_value r
+  subst er
+  clear e
+  have z : (0 : U32).toNat = 0 := rfl
+  have := lt32 s10; have := lt32 s12; have := lt32 s14; have := lt32 s16
+  have p0 := outEven_spec s9 s10 0 h9 (by omega); rw [← e0] at p0
+  have p1 := outOdd_spec s10 r0.2 (by omega); rw [← e1] at p1
+  have p2 := outEven_spec s11 s12 r1.2 h11 (by omega); rw [← e2] at p2
+  have p3 := outOdd_spec s12 r2.2 (by omega); rw [← e3] at p3
+  have p4 := outEven_spec s13 s14 r3.2 h13 (by omega); rw [← e4] at p4
+  have p5 := outOdd_spec s14 r4.2 (by omega); rw [← e5] at p5
+  have p6 := outEven_spec s15 s16 r5.2 h15 (by omega); rw [← e6] at p6
+  have p7 := outOdd_spec s16 r6.2 (by omega); rw [← e7] at p7
+  have p8 : a8.toNat = s17.toNat + r7.2.toNat := by rw [e8]; bvexact
+  clear e0 e1 e2 e3 e4 e5 e6 e7 e8
+  dsimp only
+  rw [value_lit, valTmp_lit, canon_lit, and29, shr32]
+  simp only [z, Nat.reducePow]
+  have := lt32 a8
+  omega
+
+/-- what `sm2P256ReduceDegree` needs of its input is `LargeOK`: b[16] < 2^60 (all other words arbitrary).
+
+    (e) `sm2P256ReduceDegree` (repaired source, commit f1a1e85) is a Montgomery reduction:
+    `value out · R ≡ Σ b[i]·2^off_i (mod p)`, with the output within the bounds even < 2^30, odd < 2^29.
+    Along the way (the lemmas `repack_lit`, `elim_step0..8`, `eliminate_lit`, `outChain_lit`): no 32-bit
+    operation of the function wraps around, every word of `tmp` stays a true non-negative integer, each
+    elimination step adds exactly x·p·2^off. -/
+theorem reduceDegree_ok (b : Large) (hb : LargeOK b) :
+    value (reduceDegree b) * R % P = valueLarge b % P ∧ InBounds (reduceDegree b) := by
+  obtain ⟨b0, b1, b2, b3, b4, b5, b6, b7, b8, b9, b10, b11, b12, b13, b14, b15, b16, rfl⟩ := exists_lit17 b
+  have h16 : b16.toNat < 2 ^ 60 := hb
+  obtain ⟨t0, t1, t2, t3, t4, t5, t6, t7, t8, t9, t10, t11, t12, t13, t14, t15, t16, t17, e1, v1, c0, c1, c2, c3, c4,
+    c5, c6, c7, c8, c9, c10, c11, c12, c13, c14, c15, c16, c17⟩ := repack_lit b0 b1 b2 b3 b4 b5 b6 b7 b8 b9 b10 b11
+      b12 b13 b14 b15 b16 h16
+  obtain ⟨s9, s10, s11, s12, s13, s14, s15, s16, s17, e2, v2, d9, d10, d11, d12, d13, d14, d15, d16, d17⟩ :=
+    eliminate_lit t0 t1 t2 t3 t4 t5 t6 t7 t8 t9 t10 t11 t12 t13 t14 t15 t16 t17 (by omega) (by omega) (by omega)
+      (by omega) (by omega) (by omega) (by omega) (by omega) (by omega) (by omega) (by omega) (by omega) (by omega)
+      (by omega) (by omega) (by omega) (by omega) (by omega)
+  obtain ⟨v3, cn, ck⟩ := outChain_lit s9 s10 s11 s12 s13 s14 s15 s16 s17 (by omega) (by omega) (by omega) (by omega)
+    (by omega) (by omega) (by omega) (by omega) (by omega)
+  have e : reduceDegree #v[b0, b1, b2, b3, b4, b5, b6, b7, b8, b9, b10, b11, b12, b13, b14, b15, b16] =
+      reduceCarry (outChain #v[0, 0, 0, 0, 0, 0, 0, 0, 0, s9, s10, s11, s12, s13, s14, s15, s16, s17]).1
+        (outChain #v[0, 0, 0, 0, 0, 0, 0, 0, 0, s9, s10, s11, s12, s13, s14, s15, s16, s17]).2 := by
+    show reduceCarry (outChain (eliminate true (repack _))).1 (outChain (eliminate true (repack _))).2 = _
+    rw [e1, e2]
+  rw [e]
+  generalize outChain #v[0, 0, 0, 0, 0, 0, 0, 0, 0, s9, s10, s11, s12, s13, s14, s15, s16, s17] = r at v3 cn ck ⊢
+  obtain ⟨h4, h5⟩ := reduceCarry_exact r.1 r.2 ck cn
+  refine ⟨?_, h5⟩
+  rw [← v1, ← v2, ← v3]
+  have hR : R = 2 ^ 257 := rfl
+  rw [hR]
+  have e3 : (value r.1 + r.2.toNat * 2 ^ 257) * 2 ^ 257
+      = value (reduceCarry r.1 r.2) * 2 ^ 257 + (r.2.toNat * 2 * 2 ^ 257) * P := by
+    rw [← h4]
+    ring
+  rw [e3, Nat.add_mul_mod_self_right]
+
+/-- (f) `sm2P256Mul` (repaired source) is Montgomery multiplication: within the input bounds
+    `value (mul a b) · R ≡ value a · value b (mod p)` and the output is within the bounds -/
+theorem mul_ok (a b : Limbs) (ha : InBounds a) (hb : InBounds b) :
+    value (mul a b) * R % P = value a * value b % P ∧ InBounds (mul a b) := by
+  obtain ⟨_, hv, hl⟩ := mul_large_ok a b ha hb
+  obtain ⟨h1, h2⟩ := reduceDegree_ok (mulLarge a b) hl
+  exact ⟨by rw [← hv]; exact h1, h2⟩
+
+/-- (f) the same for `sm2P256Square` -/
+theorem square_ok (a : Limbs) (ha : InBounds a) :
+    value (square a) * R % P = value a * value a % P ∧ InBounds (square a) := by
+  obtain ⟨_, hv, hl⟩ := square_large_ok a ha
+  obtain ⟨h1, h2⟩ := reduceDegree_ok (squareLarge a) hl
+  exact ⟨by rw [← hv]; exact h1, h2⟩
+
+/-- from `v·R ≡ w (mod p)` to `v·R⁻¹ ≡ w·R⁻¹·R⁻¹` (any modulus, any R·R⁻¹ ≡ 1) -/
+theorem montgomery_aux (v w r ri p : Nat) (hr : r * ri % p = 1) (h : v * r % p = w % p) :
+    v * ri % p = w * ri % p * ri % p := by
+  have e1 : (v * ri) * (r * ri) = (v * r) * (ri * ri) := by ring
+  have e2 : w * (ri * ri) = (w * ri) * ri := by ring
+  calc v * ri % p = (v * ri) * (r * ri) % p := by
+        rw [Nat.mul_mod (v * ri) (r * ri), hr, Nat.mul_one, Nat.mod_mod]
+    _ = (v * r) * (ri * ri) % p := by rw [e1]
+    _ = (v * r % p) * (ri * ri) % p := by rw [Nat.mod_mul_mod]
+    _ = (w % p) * (ri * ri) % p := by rw [h]
+    _ = w * (ri * ri) % p := by rw [Nat.mod_mul_mod]
+    _ = (w * ri) * ri % p := by rw [e2]
+    _ = (w * ri % p) * ri % p := by rw [Nat.mod_mul_mod]
+
+theorem montgomery_prod (x y ri p : Nat) : x * y * ri % p * ri % p = (x * ri % p) * (y * ri % p) % p := by
+  have e : x * y * ri * ri = (x * ri) * (y * ri) := by ring
+  rw [Nat.mod_mul_mod, e, Nat.mul_mod]
+
+/-- (f) in terms of the represented field elements: `fieldRepr (mul a b) = fieldRepr a · fieldRepr b mod p` -/
+theorem fieldRepr_mul (a b : Limbs) (ha : InBounds a) (hb : InBounds b) :
+    fieldRepr (mul a b) = fieldRepr a * fieldRepr b % P := by
+  obtain ⟨h, _⟩ := mul_ok a b ha hb
+  unfold fieldRepr
+  rw [montgomery_aux _ _ R RInverse P R_RInverse h, montgomery_prod]
+
+theorem fieldRepr_square (a : Limbs) (ha : InBounds a) :
+    fieldRepr (square a) = fieldRepr a * fieldRepr a % P := by
+  obtain ⟨h, _⟩ := square_ok a ha
+  unfold fieldRepr
+  rw [montgomery_aux _ _ R RInverse P R_RInverse h, montgomery_prod]
+
+theorem fieldRepr_add (a b : Limbs) (ha : InBounds a) (hb : InBounds b) :
+    fieldRepr (add a b) = (fieldRepr a + fieldRepr b) % P := by
+  obtain ⟨h, _⟩ := add_ok a b ha hb
+  unfold fieldRepr
+  rw [Nat.mul_mod, h, ← Nat.mul_mod, Nat.add_mul, Nat.add_mod]
+
+theorem fieldRepr_sub (a b : Limbs) (ha : InBounds a) (hb : InBounds b) :
+    (fieldRepr (sub a b) + fieldRepr b) % P = fieldRepr a := by
+  obtain ⟨h, _⟩ := sub_ok a b ha hb
+  unfold fieldRepr
+  rw [← Nat.add_mod, ← Nat.add_mul, Nat.mul_mod, h, ← Nat.mul_mod]
+
+-- the function as found (before the repair, commit f1a1e85) --------------------------------------------------------
+
+/-- witness inputs: canonical limbs of two field elements below p -/
+def wrapA : Limbs := #v[0, 0, 0x1fffffff, 0xffffff2, 0x2000000, 0, 0, 0, 0x2000]
+def wrapB : Limbs := #v[0, 0, 0x1fffffff, 0xfffffff, 0, 0, 0, 1, 1]
+/-- the limb vector of the field element 1·R⁻¹ ("1" as limbs) -/
+def limbOne : Limbs := #v[1, 0, 0, 0, 0, 0, 0, 0, 0]
+/-- Montgomery limbs of the x-coordinate 7e4000018f01277e…8e212782 of a point on the curve -/
+def wrapX : Limbs := #v[1, 0, 0, 7, 0, 0, 0, 0x818c24f, 0]
+
+set_option maxRecDepth 100000 in
+/-- `sm2P256ReduceDegree` AS FOUND was not a Montgomery reduction (kernel-checked on concrete values).
+    In an even elimination step with x = 1 the statement `tmp[i+9] += ((x >> 1) - 1) & xMask` adds
+    0xffffffff; when `tmp[i+9]` is 0 the word wraps to 2^32 - 1 (first conjunct: the product 1·1, step 0 —
+    the repaired code leaves 0 there).  For the canonical limb vectors `wrapA`, `wrapB` of two field
+    elements the old `sm2P256Mul` is off by exactly 2^32·2^371 = 2^403, the repaired one is right; for
+    `wrapX`, the x-coordinate of a curve point in Montgomery form, the old `sm2P256Square` is wrong
+    (`IsOnCurve` rejected that point, `Double` returned a wrong point). -/
+theorem reduceDegree_old_wraps :
+    (elimEven false (repack (mulLarge limbOne limbOne)) 0)[9] = 0xffffffff ∧
+    (elimEven true (repack (mulLarge limbOne limbOne)) 0)[9] = 0 ∧
+    Canon wrapA ∧ Canon wrapB ∧ value wrapA < P ∧ value wrapB < P ∧
+    value (mulOld wrapA wrapB) * R % P ≠ value wrapA * value wrapB % P ∧
+    value (mulOld wrapA wrapB) * R % P = (value wrapA * value wrapB + 2 ^ 403) % P ∧
+    value (mul wrapA wrapB) * R % P = value wrapA * value wrapB % P ∧
+    wrapX = fromBig 0x7e4000018f01277ef1ded87e01c000017f1ffffe829fffff701ed8808e212782 ∧
+    fieldRepr (squareOld wrapX) ≠ fieldRepr wrapX * fieldRepr wrapX % P ∧
+    fieldRepr (square wrapX) = fieldRepr wrapX * fieldRepr wrapX % P := by decide
+
+-- non-vacuity -----------------------------------------------------------------------------------------------------
+
+/-- all limbs at the largest value the input bounds allow -/
+def limbMax : Limbs :=
+  #v[0x3fffffff, 0x1fffffff, 0x3fffffff, 0x1fffffff, 0x3fffffff, 0x1fffffff, 0x3fffffff, 0x1fffffff, 0x3fffffff]
+
+set_option maxRecDepth 100000 in
+example : InBounds limbMax ∧ ¬ Canon limbMax ∧ InBounds (mul limbMax limbMax) ∧ InBounds (add limbMax limbMax) ∧
+    InBounds (sub limbOne limbMax) ∧
+    value (mul limbMax limbMax) * R % P = value limbMax * value limbMax % P := by decide
+set_option maxRecDepth 100000 in
+example : toBig (mul (fromBig 3) (fromBig 5)) = 15 ∧ toBig (add (fromBig 3) (fromBig 5)) = 8 ∧
+    toBig (sub (fromBig 3) (fromBig 5)) = P - 2 ∧ toBig (square (fromBig (P - 1))) = 1 := by decide
+example : toBig (fromBig (P - 1)) = P - 1 ∧ Canon (fromBig (P - 1)) ∧ fromBig 0 = #v[0, 0, 0, 0, 0, 0, 0, 0, 0] := by
+  decide
+set_option maxRecDepth 100000 in
+example : LargeOK (mulLarge limbMax limbMax) ∧ (mulLarge limbMax limbMax)[8].toNat = 8070450512920576013 := by decide
+example : reduceCarry limbOne 7 = #v[0xf, 0, 0x1FFFF900, 0x37FF, 0, 0, 0, 0xE000000, 0] := by decide
+
 end Props.C03Limbs
